@@ -249,6 +249,7 @@ inductive Ctx where
   | dct (pre : List Sp) (c : Ctx) (post : List Sp)
   | lst (c : Ctx)
   | frame (c : Ctx)
+  | first (c : Ctx)
 
 def Ctx.plug : Ctx → Sp → Sp
   | .hole, x => x
@@ -256,16 +257,17 @@ def Ctx.plug : Ctx → Sp → Sp
   | .dct pre c post, x => .dct (pre ++ c.plug x :: post)
   | .lst c, x => .lst (c.plug x)
   | .frame c, x => .frame (c.plug x)
+  | .first c, x => .first (c.plug x)
 
 def Ctx.depth : Ctx → Nat
   | .hole => 0
-  | .tup _ c _ | .dct _ c _ | .lst c | .frame c => c.depth + 1
+  | .tup _ c _ | .dct _ c _ | .lst c | .frame c | .first c => c.depth + 1
 
 /-- everything evaluated before the hole returns -/
 def Ctx.PreOk (E : EvalEnv) : Ctx → Prop
   | .hole => True
   | .tup pre c _ | .dct pre c _ => (∀ p ∈ pre, eval E p = .val) ∧ c.PreOk E
-  | .lst c | .frame c => c.PreOk E
+  | .lst c | .frame c | .first c => c.PreOk E
 
 theorem plug_propagates (E : EvalEnv) (c : Ctx) (x : Sp) (o : Origin)
     (hpre : c.PreOk E) (hx : eval E x = .exc o) : eval E (c.plug x) = .exc o := by
@@ -281,6 +283,8 @@ theorem plug_propagates (E : EvalEnv) (c : Ctx) (x : Sp) (o : Origin)
     simp only [Ctx.plug, eval, frameG_id, ih hpre]
   | frame c ih =>
     simp only [Ctx.plug, eval, frameG_id, ih hpre]
+  | first c ih =>
+    simp only [Ctx.plug, eval, frameG_id, ih hpre]
 
 /-! ### the only exception objects an evaluation can end with -/
 
@@ -289,7 +293,7 @@ def hasFault : Sp → Bool
   | .ok | .badPath | .badMatch => false
   | .fault => true
   | .tup xs | .dct xs => hasFaultL xs
-  | .lst x | .frame x => hasFault x
+  | .lst x | .frame x | .first x => hasFault x
   | .coal xs _ _ => hasFaultL xs
 def hasFaultL : List Sp → Bool
   | [] => false
@@ -325,32 +329,33 @@ theorem eval_origin (E : EvalEnv) :
     | val => simpa [h] using ih
     | exc o => simpa [h] using ih
   case case8 => intro a ih; simpa [eval, frameG_id, hasFault] using ih
-  case case9 => intro a sk d ih; simpa [eval, frameG_id, hasFault] using ih
-  case case10 => intro x; simp [evalCoal, OriginOk]
-  case case11 => intro x d hd; simp [evalCoal, hd, OriginOk, internalClasses]
-  case case12 => intro x r sk d hx _; simp [evalCoal, hx, OriginOk]
-  case case13 =>
+  case case9 => intro a ih; simpa [eval, frameG_id, hasFault] using ih
+  case case10 => intro a sk d ih; simpa [eval, frameG_id, hasFault] using ih
+  case case11 => intro x; simp [evalCoal, OriginOk]
+  case case12 => intro x d hd; simp [evalCoal, hd, OriginOk, internalClasses]
+  case case13 => intro x r sk d hx _; simp [evalCoal, hx, OriginOk]
+  case case14 =>
     intro x r sk d a hx hc _ ih
     simp only [evalCoal, hx, hc, if_true]
     revert ih
     cases evalCoal E r sk d with
     | val => simp [OriginOk]
     | exc o => cases o <;> simp [OriginOk, hasFaultL] <;> intro h <;> simp [h]
-  case case14 =>
+  case case15 =>
     intro x r sk d a hx hc ih
     simp only [evalCoal, hx, hc]
     rw [hx] at ih
     revert ih
     cases a <;> simp [OriginOk, hasFaultL] <;> intro h <;> simp [h]
-  case case15 => simp [evalSeq, OriginOk]
-  case case16 =>
+  case case16 => simp [evalSeq, OriginOk]
+  case case17 =>
     intro x r hx _ ih
     simp only [evalSeq, hx]
     revert ih
     cases evalSeq E r with
     | val => simp [OriginOk]
     | exc o => cases o <;> simp [OriginOk, hasFaultL] <;> intro h <;> simp [h]
-  case case17 =>
+  case case18 =>
     intro x r a hx ih
     simp only [evalSeq, hx]
     rw [hx] at ih
